@@ -120,7 +120,8 @@ func (c *ClusterNode) RPCSendShard(args *RPCSendShardRequest, reply *RPCSendShar
 	reply.BytesWritten = n
 	// ---------------------------
 	// Compute final checksum
-	if args.ChunkIndex > 0 && len(args.ChunkData) == 0 {
+	// An empty chunk ends the transfer, it is the first one for an empty file
+	if len(args.ChunkData) == 0 {
 		f.Close()
 		checksum, err := FileHash(shardPath)
 		if err != nil {
